@@ -16,16 +16,17 @@ DEVICE_FORMS = [
     "HLINE abs PSET", "HLINE abs PRESET", "HLINE abs PSET B", "HLINE abs PRESET BF", "HLINE rel PSET", "HLINE rel PRESET B", "HLINE rel PSET BF",
     "HSET", "HSET c", "HRESET", "SET", "RESET", "HPAINT", "HPAINT c", "HPAINT cb", "HPRINT s", "HPRINT n", "HDRAW", "PLAY",
     "HBUFF", "HGET", "HPUT PSET", "HPUT AND", "HPUT NOT", "HPUT OR", "HPUT PRESET", "HPUT XOR", "SOUND",
-    "POKE", "POKE 65496", "POKE 65497", "POKE &HFFD8", "POKE &HFFD9",
+    "POKE", "POKE 65496", "POKE 65497", "POKE &HFFD8", "POKE &HFFD9", "POKE 1024", "POKE &H400",
 ]
 
 
 class FullGen:
-    def __init__(self, draw, switches=frozenset(), operand_depth=1, **genkw):
+    def __init__(self, draw, switches=frozenset(), operand_depth=1, temp_bias=0, **genkw):
         self.draw = draw
         self.sw = frozenset(switches)
         self.g = cbgen.Gen(draw, switches, **genkw)
         self.operand_depth = operand_depth
+        self.temp_bias = temp_bias  # one operand in `temp_bias` is forced to need a temporary (0 = never)
         self.kinds = set()
         self.uses_hbuff = False
 
@@ -38,10 +39,29 @@ class FullGen:
     def e(self):
         """numeric operand"""
         dep = self.d(st.integers(0, self.operand_depth))
+        if self.temp_bias and self.g.convertible and self.d(st.integers(1, self.temp_bias)) == 1:
+            self.g.n_conv += 1
+            inner = self.g.num(dep)
+            r = self.d(st.integers(0, 3))
+            if r == 0:
+                return ["fn", "INT", [inner]]
+            if r == 1:
+                return ["bin", "+", ["fn", "INT", [inner]], self.g.num_lit()]
+            if r == 2:
+                return ["bin", "*", ["fn", "VAL", [["str", self.d(st.sampled_from(["12", "3", "7.5"]))]]], ["fn", "ABS", [inner]]]
+            return ["fn", "ABS", [["fn", "INT", [["bin", "-", inner, ["num", "1", 1]]]]]]
         return self.g.num(dep)
 
     def es(self):
         dep = self.d(st.integers(0, self.operand_depth))
+        if self.temp_bias and self.g.convertible and self.d(st.integers(1, self.temp_bias)) == 1:
+            self.g.n_conv += 1
+            r = self.d(st.integers(0, 2))
+            if r == 0:
+                return ["scat", ["fn", "HEX$", [["num", "255", 255]]], self.g.string(dep, plain=True)]
+            if r == 1:
+                return ["fn", "STRING$", [["num", "2", 2], ["scat", ["str", "U"], self.g.string(dep, plain=True)]]]
+            return ["scat", self.g.string(dep, plain=True), ["fn", "STR$", [self.g.num(0)]]]
         return self.g.string(dep)
 
     def first_operand(self):
@@ -52,12 +72,15 @@ class FullGen:
         return x
 
     def width_operand(self):
-        saved = self.g.convertible
+        # open finding: the WIDTH operand is never visited - functions that need a call are lost and arrays that occur
+        # only there are never declared; while it is open the operand is built from literals and scalars only
         if self.on("no_convertible_in_width_read_input"):
-            self.g.convertible = False
-        x = self.e()
-        self.g.convertible = saved
-        return x
+            saved = (self.g.convertible, self.g.arrays, self.temp_bias)
+            self.g.convertible, self.g.arrays, self.temp_bias = False, False, 0
+            x = self.e()
+            self.g.convertible, self.g.arrays, self.temp_bias = saved
+            return x
+        return self.e()
 
     def device(self, form=None):
         form = form or self.d(st.sampled_from(DEVICE_FORMS))
@@ -144,9 +167,13 @@ class FullGen:
             if fixed and fixed[-1][0] == "e" and it[0] == "e":
                 fixed.append(["s", ";"])
             fixed.append(it)
-        if self.d(st.integers(0, 4)) == 0:
+        r = self.d(st.integers(0, 9))
+        if r == 0:
+            self.kinds.add("printat_without_list")
+            return ["printat", self.e(), None]
+        if r < 3:
             self.kinds.add("printat")
-            return ["printat", self.e(), fixed if fixed or self.d(st.booleans()) else None]
+            return ["printat", self.e(), fixed]
         self.kinds.add("print")
         return ["print", fixed]
 
@@ -176,11 +203,11 @@ class FullGen:
 
     def rw_target(self):
         """READ / INPUT target: subscripts without convertible functions while that finding is open."""
-        saved = self.g.convertible
+        saved = (self.g.convertible, self.temp_bias)
         if self.on("no_convertible_in_width_read_input"):
-            self.g.convertible = False
+            self.g.convertible, self.temp_bias = False, 0
         t = self.target()
-        self.g.convertible = saved
+        self.g.convertible, self.temp_bias = saved
         return t
 
     def misc(self):
@@ -220,9 +247,9 @@ class FullGen:
 
 
 @st.composite
-def full_programs(draw, switches=frozenset(), max_lines=10, operand_depth=1, with_control=True, device_fn=True, n_err=None):
+def full_programs(draw, switches=frozenset(), max_lines=10, operand_depth=1, with_control=True, device_fn=True, n_err=None, temp_bias=0):
     """-> dict(prog, meta).  Line references always hit existing lines."""
-    fg = FullGen(draw, switches, operand_depth=operand_depth, device_fn=device_fn)
+    fg = FullGen(draw, switches, operand_depth=operand_depth, device_fn=device_fn, temp_bias=temp_bias)
     g = fg.g
     n = draw(st.integers(1, max_lines))
     step = draw(st.sampled_from([10, 10, 1, 7, 100]))
@@ -232,7 +259,34 @@ def full_programs(draw, switches=frozenset(), max_lines=10, operand_depth=1, wit
     open_loops = []
     dim_done = False
     n_onerr = n_onbrk = 0
+    nest_at = draw(st.integers(0, 3 * n)) if with_control else -1  # one program in three gets a loop nest closed in a drawn style
     for i, ln in enumerate(nums):
+        if i == nest_at and not open_loops:
+            fg.kinds.add("loop_nest")
+            depth_ = draw(st.integers(2, 3))
+            vs = ["N%d" % q for q in range(depth_)]
+            stmts = [["for", v, g.num(0), g.num(0), None] for v in vs]
+            stmts.append(fg.misc())
+            if stmts[-1][0] in ("rem", "data"):
+                stmts[-1] = ["let", ["var", "A"], ["num", "1", 1], False]
+            opened = list(vs)
+            while opened:
+                k = draw(st.integers(0, len(opened)))
+                if k == 0:
+                    stmts.append(["next", []])
+                    opened.pop()
+                else:
+                    stmts.append(["next", [opened.pop() for _ in range(k)]])
+                    if k >= 2:
+                        fg.kinds.add("next_list")
+            split = draw(st.integers(1, len(stmts)))
+            lines.append([ln, stmts[:split]])
+            if stmts[split:]:
+                lines.append([ln + max(1, step // 2) if step > 1 else ln, stmts[split:]])
+                if step == 1:
+                    lines[-2][1] += lines[-1][1]
+                    lines.pop()
+            continue
         k = draw(st.integers(1, 3))
         stmts = []
         for _ in range(k):
